@@ -10,12 +10,21 @@ use std::sync::atomic::{AtomicUsize, Ordering};
 const N: usize = 4096;
 static COUNTS: [AtomicUsize; N] = { const Z: AtomicUsize = AtomicUsize::new(0); [Z; N] };
 
+/// fault injection: the next close of this descriptor really closes it and then reports EINTR (what
+/// Linux does when a close is interrupted: the descriptor is gone, the call must not be repeated)
+static EINTR_FD: std::sync::atomic::AtomicI32 = std::sync::atomic::AtomicI32::new(-1);
+
 #[no_mangle]
 pub unsafe extern "C" fn close(fd: libc::c_int) -> libc::c_int {
     if fd >= 0 && (fd as usize) < N {
         COUNTS[fd as usize].fetch_add(1, Ordering::SeqCst);
     }
-    libc::syscall(libc::SYS_close, fd) as libc::c_int
+    let r = libc::syscall(libc::SYS_close, fd) as libc::c_int;
+    if fd >= 0 && EINTR_FD.compare_exchange(fd, -1, Ordering::SeqCst, Ordering::SeqCst).is_ok() {
+        *libc::__errno_location() = libc::EINTR;
+        return -1;
+    }
+    r
 }
 
 fn closes(fd: i32) -> usize { COUNTS[fd as usize].load(Ordering::SeqCst) }
@@ -52,6 +61,24 @@ fn main() {
         println!("raw_pipe_ok_registered {} 0 1", closes(w));
         signal_hook::low_level::unregister(id);
         println!("raw_pipe_ok_unregistered {} 1 1", closes(w));
+        unsafe { libc::syscall(libc::SYS_close, r) };
+    }
+    // the same two ends of ownership with close() reporting EINTR: still exactly one close
+    {
+        let (r, w) = new_pipe(); reset(w);
+        let id = pipe::register_raw(libc::SIGUSR1, w).unwrap();
+        EINTR_FD.store(w, Ordering::SeqCst);
+        signal_hook::low_level::unregister(id);
+        println!("raw_pipe_unregistered_close_eintr {} 1 1", closes(w));
+        EINTR_FD.store(-1, Ordering::SeqCst);
+        unsafe { libc::syscall(libc::SYS_close, r) };
+    }
+    {
+        let (r, w) = new_pipe(); reset(w);
+        EINTR_FD.store(w, Ordering::SeqCst);
+        let res = pipe::register_raw(100, w);
+        println!("raw_pipe_err_close_eintr {} 1 {}", closes(w), res.is_err() as i32);
+        EINTR_FD.store(-1, Ordering::SeqCst);
         unsafe { libc::syscall(libc::SYS_close, r) };
     }
     // owned socket, rejected by error return / accepted and removed
